@@ -34,8 +34,7 @@ def gen_mutation(rng, V, tbl, pred, allow_known):
         choices += [("neutron_assign", rng.choice(WITH_NEUTRON)), ("neutron_field", rng.choice(WITH_NEUTRON)),
                     ("neutron_field", rng.choice(WITH_NEUTRON)),
                     ("nsf_table_inplace", rng.choice(ENERGY_DEP)), ("nuclear_spin", [26, 56, 0])]
-        if allow_known:
-            choices += [("neutron_field_dataless", rng.choice(DATALESS))]
+        choices += [("neutron_field_dataless", rng.choice(DATALESS))]
     else:
         choices += [("neutron_assign", rng.choice(WITH_NEUTRON))] if "mass" in props and "density" in props else []
     if "crystal_structure" in props:
